@@ -355,7 +355,7 @@ static int run_cases(const char* path, long skip){
     else if(kind == "nddestroy"){ int r = h; ndsparse_destroy(R[r]); R[r] = NULL; RT[r].reset(); c << "void"; t << "void"; }
 #endif
     else if(kind == "perm"){      // perm h p0 p1 ...   (the wrapper copies get_ndim() entries: the caller supplies at least that many)
-      std::vector<size_t> p; for(size_t i = 3; i < w.size(); i++) p.push_back(atoi(w[i].c_str()));
+      std::vector<size_t> p; for(size_t i = 3; i < w.size(); i++) p.push_back((size_t)strtoull(w[i].c_str(), NULL, 10));
       uint32_t nd = T[h] ? T[h]->get_ndim() : 0;
       std::vector<size_t> pc = p; pc.resize(std::max<size_t>(pc.size(), nd ? nd : 1), 0);
       std::vector<size_t> pt(pc.begin(), pc.begin() + nd);
